@@ -109,6 +109,12 @@ def setApp (apps : List (Nat × AppMem)) (a : Nat) (m : AppMem) : List (Nat × A
   | [] => [(a, m)]
   | (a', m') :: rest => if a' = a then (a, m) :: rest else (a', m') :: setApp rest a m
 
+/-- `dict.pop(a)` -/
+def delApp (apps : List (Nat × AppMem)) (a : Nat) : List (Nat × AppMem) :=
+  match apps with
+  | [] => []
+  | (a', m) :: rest => if a' = a then delApp rest a else (a', m) :: delApp rest a
+
 def getArr (arrs : List (Int × Arr)) (a : Int) : Option Arr :=
   match arrs with
   | [] => none
@@ -298,6 +304,10 @@ inductive Action
   (`get_purpose_id`, or `put` for a create) raised: the request was never accepted by the stack.
   Issuing is atomic with the stack's acceptance: nothing is registered. -/
   | rejected (sub : Nat)
+  /-- `stop_application(app)`: the unit module, arrays (and registers, shared memory) of the application
+  are dropped and its mapped physical qubits un-marked. Nothing else: outstanding requests, the pending
+  list and the subroutine table are NOT touched (responses parked for other applications survive). -/
+  | stopApp (app : Nat)
   deriving Repr, Inhabited
 
 /-- run `f` on the memory of the application of live subroutine `sub` -/
@@ -371,6 +381,15 @@ def step (okf : Nat) (s : State) : Action → Option State
       | none => none
       | some _ => some s
   | .rejected sub => withApp s sub fun _ _ => some s
+  | .stopApp app =>
+      match getApp s.apps app with
+      | none => none                  -- `_qubit_unit_modules.pop(app_id)`: KeyError
+      | some m =>
+        let mappedQ : List Int := m.unit.filterMap id
+        if mappedQ.all (fun p => s.used.contains p) then
+          some { s with apps := delApp s.apps app,
+                        used := s.used.filter (fun p => !mappedQ.contains p) }
+        else none                     -- `set.remove`: KeyError
 
 def run (okf : Nat) (s : State) : List Action → Option State
   | [] => some s
